@@ -1146,6 +1146,13 @@ func (t *Transaction) Clean(minSize, maxSize int, minAge, maxAge time.Duration) 
 		dropped++
 	}
 
+	// remember the id of the newest removed event
+	if dropped > 0 {
+		if ts, ok := bsonkit.Get(oplog.Documents.List[dropped-1], "_id.ts").(primitive.Timestamp); ok {
+			clone.Trimmed = ts
+		}
+	}
+
 	// remove the prefix in one pass
 	for i := 0; i < dropped; i++ {
 		oplog.Documents.Remove(oplog.Documents.List[0])
